@@ -204,6 +204,10 @@ def check(rep, ctx):
     for row in generator_vs_instances(ctx):
         rep.check(R_C, row["ok"], construct=row["construct"], stmt=row["stmt"], message=row["message"],
                   file=row.get("file", "codegen/generate_schema.py"), line=row.get("line", 0))
+    from ..gen_tables import dataclass_field_invariants
+    for row in dataclass_field_invariants(ctx):
+        rep.check(R_C, row["ok"], construct="codegen.generate_schema:format_dataclass_field", stmt=row["case"], message=row["message"],
+                  file="codegen/generate_schema.py", line=row.get("line", 0))
     rep.extra.update(modules=len(S.modules), classes=len(S.classes), reference=str(ref["build_tag"]), baseline_differences=len(diffs))
     rep.assumptions.append("the schema of the pinned commit is the generator's output for Kafka 3.9.0 (the reference is frozen from it)")
     rep.trusted_base += ["/verif/reference/schema-3.9.0.json.gz", "/verif/spec/api_pins.json", "kverif/spec.py API key table"]
